@@ -126,6 +126,9 @@ type loopInfo struct {
 	ghosts  map[string]bool
 	preSt   *State
 	dec0    *Term
+	fresh    map[string]bool
+	mapOps   []mapOp
+	callMods []callMod
 }
 
 func newExec(P *Program, C *Contracts, key string) (*Exec, error) {
@@ -312,6 +315,48 @@ func (x *Exec) typeFacts(v *Val, t types.Type) *Term {
 	return tAnd(cs...)
 }
 
+// refFacts: every reference held in a live value is nil or allocated (a runtime invariant of Go).
+func (x *Exec) refFacts(st *State, v *Val, t types.Type) *Term {
+	var cs []*Term
+	al := func() *Term { x.usesAlloc = true; return x.heapGet(st, allocKey, arr(SInt, SBool)) }
+	var rec func(v *Val, t types.Type, depth int)
+	rec = func(v *Val, t types.Type, depth int) {
+		if t == nil || v == nil || depth > 6 {
+			return
+		}
+		switch v.K {
+		case VScalar:
+			if v.T.S != SInt {
+				return
+			}
+			switch types.Unalias(t).Underlying().(type) {
+			case *types.Pointer, *types.Map:
+				cs = append(cs, tOr(tEq(v.T, intLit(0)), tSelect(al(), v.T)))
+			}
+		case VSlice:
+			cs = append(cs, tOr(tEq(v.F[0].T, intLit(0)), tSelect(al(), v.F[0].T)))
+		case VStruct:
+			st, ok := t.Underlying().(*types.Struct)
+			if !ok {
+				return
+			}
+			for i := range v.F {
+				rec(v.F[i], st.Field(i).Type(), depth+1)
+			}
+		case VTuple:
+			tp, ok := t.(*types.Tuple)
+			if !ok {
+				return
+			}
+			for i := range v.F {
+				rec(v.F[i], tp.At(i).Type(), depth+1)
+			}
+		}
+	}
+	rec(v, t, 0)
+	return tAnd(cs...)
+}
+
 func intRange(b *types.Basic) (string, string) {
 	switch b.Kind() {
 	case types.Int, types.Int64:
@@ -343,7 +388,7 @@ func (x *Exec) findLoops() {
 			if s.Dominates(b) {
 				li := x.loops[s]
 				if li == nil {
-					li = &loopInfo{header: s, blocks: map[*ssa.BasicBlock]bool{s: true}, cells: map[*ssa.Alloc]bool{}, heap: map[string]bool{}, iters: map[*ssa.Range]bool{}, ghosts: map[string]bool{}}
+					li = &loopInfo{header: s, blocks: map[*ssa.BasicBlock]bool{s: true}, cells: map[*ssa.Alloc]bool{}, heap: map[string]bool{}, fresh: map[string]bool{}, iters: map[*ssa.Range]bool{}, ghosts: map[string]bool{}}
 					x.loops[s] = li
 				}
 				li.backs = append(li.backs, b)
@@ -450,6 +495,7 @@ func (x *Exec) run() (err error) {
 		x.params[p.Name()] = v
 		x.paramTyp[p.Name()] = p.Type()
 		x.assume(st, x.typeFacts(v, p.Type()))
+		x.assume(st, x.refFacts(st, v, p.Type()))
 	}
 	for i, fv := range fn.FreeVars {
 		// captured variable: pointer to the variable; model as a cell-like heap object
